@@ -298,6 +298,40 @@ def generate(repo, outdir_lean, outdir_json, write_if_changed):
                                 f"      ∀ p, resolve hist path = some p → Aoe.Props.CommitFrame.ListLen p os.length s'.root :=\n"
                                 f"  Aoe.Props.CommitFrame.commit_objs_len_of_safe {mod}.classes 3 {cid} hist vals s s' {mod}.c{cid} rfl h {j}\n"
                                 f"    (by rw [hh]; exact listSafe_{mod}_{cname}_{j}) os hv\n")
+                mc = re.search(r"\[\{ dest := \(\.self (\d+)\), expr := \(\.len \(\.ref \(\.self \d+\)\)\) \}\] \[", l)
+
+                def _steps(txt):
+                    return [tuple(x.strip().lstrip(".").split()) for x in txt.split(",") if x.strip()]
+
+                def _pdiv(p_, q_):
+                    if not p_ or not q_:
+                        return False
+                    a_, b_ = p_[0], q_[0]
+                    if a_[0] == "fld" and b_[0] == "fld":
+                        return a_[1] != b_[1] or _pdiv(p_[1:], q_[1:])
+                    if a_[0] == "hidx" and b_[0] == "hidx":
+                        return a_[1] == b_[1] and _pdiv(p_[1:], q_[1:])
+                    return True
+                # the count is only the number of objects at the END of the commit when no link that is pushed later (= declared
+                # earlier) writes the count retriever itself (e.g. _PlayerUnits.unit_count is a link of its own: the object's value wins)
+                if mc:
+                    cpath = _steps(m_.group(1))[:-1] + [("fld", mc.group(1))]
+                    for l2 in links[:j]:
+                        m2 = re.search(r"\.(?:plain|objs) \[([^\]]*)\]", l2)
+                        if m2 and not _pdiv(_steps(m2.group(1)), cpath):
+                            mc = None
+                            break
+                if mc:
+                    laws_src.append(f"theorem countSafe_{mod}_{cname}_{j} : Aoe.Props.CommitFrame.countSafe {mod}.classes 3 {mod}.c{cid} {depth} {j} = true := by decide")
+                    laws_src.append(f"/-- after the commit of a {cname} (version {v}) the count retriever of its object-list link number {j} holds the number of objects -/\n"
+                                    f"theorem count_{mod}_{cname}_{j} (hist : List Nat) (hh : hist.length = {depth}) (vals : List Val) (s s' : Sections)\n"
+                                    f"    (h : commitObj {mod}.classes 4 {cid} hist (.strct vals) s = .ok s') (os : List Val) (hv : vals[{j}]? = some (.list os)) :\n"
+                                    f"    ∃ a path ccls defaults childNames guards names ci nm,\n"
+                                    f"      {mod}.c{cid}.links[{j}]? = some (a, .objs path ccls defaults childNames guards\n"
+                                    f"        [{{ dest := .self ci, expr := .len (.ref (.self nm)) }}] names) ∧\n"
+                                    f"      ∀ p, resolve hist path = some p → getAt (dropLastStep p ++ [Step.fld ci]) s'.root = some (.int os.length) :=\n"
+                                    f"  Aoe.Props.CommitFrame.commit_objs_count_of_safe {mod}.classes 3 {cid} hist vals s s' {mod}.c{cid} rfl h {j}\n"
+                                    f"    (by rw [hh]; exact countSafe_{mod}_{cname}_{j}) os hv\n")
         mods.append((v, mod))
         meta_all[v] = {"classes": g.meta, "managers": [c.__name__ for c in mgr_classes]}
     agg = "\n".join(f"import Aoe.Generated.{m}" for _, m in mods) + "\n/-! GENERATED by tools/gen_mgr.py -/\nnamespace Aoe.Generated\nopen Aoe.Commit\n"
